@@ -195,7 +195,8 @@ func (r *Runner) c09Fixtures() map[string]string {
 		sub               map[string]string // sibling packages: relative file -> content
 	}
 	var fxs []fx
-	unsup := map[string]string{"chan": "chan int", "func": "func()", "iface": "interface{ M() }"}
+	// (an unnamed struct that is not ==-comparable is not "unsupported" by nature: it must be handled or rejected, not loop)
+	unsup := map[string]string{"chan": "chan int", "func": "func()", "iface": "interface{ M() }", "anon": "struct{ A []int }"}
 	calls := map[string]string{
 		"equal":    "func use(a, b *T) bool { return deriveEqual(a, b) }",
 		"compare":  "func use(a, b *T) int { return deriveCompare(a, b) }",
